@@ -1,7 +1,7 @@
 // C10 — optimisers never end worse than they start, converge when convex, respect bounds
 // VF-VARIANT: san
 // VF-RULE: E2: every index of each stated configuration product is one complete optimiser run (init + optimize; every 8th index executed twice on fresh objects and compared bit for bit) on a fresh optimiser and a fresh harness objective that records every point it is evaluated at; spaces "run:<optimiser>:n<dim>:<slice>" are products objective x start x constraint set x policy x tolerance x budget x interval/direction variant, "bracket:*" are products objective x initial pair. A case is non-trivial when the run returned normally and moved away from its start.
-// VF-BOUND: 14 optimiser configurations (BFGS, conjugate gradient, Powell, downhill simplex, SimpleMulti, SimpleNewtonMulti, 3 meta-optimiser compositions, Brent outward/inward, golden section, Newton 1-D, Newton backtracking); dimensions 1..3 (quick) / 1..6 (thorough); quadratics c + (x-m)'Q(x-m)/2 with Q from a finite set of integer SPD matrices (diag with kappa in {1,10,100,1000}, [[2,+-1],[+-1,2]]*{1,100}, tridiagonal(2,-1), L L' with L unit lower 0/1), m on {-1,0,1.5}^n (complete for n<=1 quick / n<=3 thorough, 5 patterns above), c in {0,1}; non-quadratics sum-cosh, quartic+quadratic, log-sum-exp, sum-log-cosh(2d) (vanishing curvature away from the minimiser: raw Newton steps from the outer starts overshoot by orders of magnitude, so the step-halving safeguards and their give-up path are exercised); starts on {-2,0.5,3}^n (complete for n<=2, 5 patterns above; n=1 also -0.1, whose first simplex/interval straddles the minimiser 0 symmetrically); constraints {none, box [-4,4]^n, box with the minimiser on a face, box whose lower / upper / alternating bounds pass exactly through the start (judged on descent, value consistency, budget and feasibility; not on convergence)}; policies keep/auto/ignore; tolerances {1e-4,1e-6,1e-8,1e-10}; budgets {10,50,5000}; three slices per optimiser and dimension (all objectives x all tolerances unconstrained; reduced objectives x constraint sets x policies; reduced objectives x small budgets) instead of the full product; "random" quadratics/starts replaced by these lattices
+// VF-BOUND: 15 optimiser configurations (BFGS, conjugate gradient, Powell, downhill simplex, SimpleMulti, SimpleNewtonMulti, 4 meta-optimiser compositions (one ending on a step-wise simplex), Brent outward/inward, golden section, Newton 1-D, Newton backtracking); dimensions 1..3 (quick) / 1..6 (thorough); quadratics c + (x-m)'Q(x-m)/2 with Q from a finite set of integer SPD matrices (diag with kappa in {1,10,100,1000}, [[2,+-1],[+-1,2]]*{1,100}, tridiagonal(2,-1), L L' with L unit lower 0/1), m on {-1,0,1.5}^n (complete for n<=1 quick / n<=3 thorough, 5 patterns above), c in {0,1}; non-quadratics sum-cosh, quartic+quadratic, log-sum-exp, sum-log-cosh(2d) (vanishing curvature away from the minimiser: raw Newton steps from the outer starts overshoot by orders of magnitude, so the step-halving safeguards and their give-up path are exercised); starts on {-2,0.5,3}^n (complete for n<=2, 5 patterns above; n=1 also -0.1, whose first simplex/interval straddles the minimiser 0 symmetrically; every n also the start minimiser + 1e-5); constraints {none, box [-4,4]^n, box with the minimiser on a face, box whose lower / upper / alternating bounds pass exactly through the start (judged on descent, value consistency, budget and feasibility; not on convergence)}; policies keep/auto/ignore; tolerances {1e-4,1e-6,1e-8,1e-10}; budgets {10,50,5000}; three slices per optimiser and dimension (all objectives x all tolerances unconstrained; reduced objectives x constraint sets x policies; reduced objectives x small budgets) instead of the full product; "random" quadratics/starts replaced by these lattices
 // VF-LEVEL: exhaustive over the stated finite configuration spaces on the real optimiser classes: descent, returned-value consistency and feasibility of every recorded evaluation judged exactly (no tolerance beyond 4 ulp on descent), budget judged on the optimiser's own evaluation counter at every step, convergence judged against a worst-case bound derived from the stop rule actually used (derivations next to the code; vacuous bounds are counted separately), bracketing judged on re-evaluated values
 // VF-ASSUME: the harness objective (value, gradient, Hessian of the stated families) and its rounding bound gamma=(n^2+4)u are correct;; bpp::Parameter/ParameterList/IntervalConstraint/AbstractParametrizable behave as documented (C01/C02's subject);; convergence bounds: one iteration of each optimiser is modelled as documented at convBound() (for conjugate gradient with n>=2 the iteration is assumed at least as good as one steepest-descent line minimisation; for the downhill simplex no bound follows from its spread criterion and the loosest factor of the family is used);; IEEE double arithmetic without contraction
 // VF-TECHNIQUE: bounded-exhaustive configuration enumeration on the real optimisers with a recording objective and analytic reference (minimiser, spectrum) of integer quadratics
@@ -30,9 +30,9 @@ using vf::str;
 using vf::num;
 
 // ================================================================================================ alphabet
-enum Opt { BFGS = 0, CG, POWELL, DSM, SIMPLE, SNEWTON, META0, META1, META2, BRENT, BRENT_IN, GOLDEN, NEWTON1, NBOD, NOPT };
+enum Opt { BFGS = 0, CG, POWELL, DSM, SIMPLE, SNEWTON, META0, META1, META2, META3, BRENT, BRENT_IN, GOLDEN, NEWTON1, NBOD, NOPT };
 static const char* ON[NOPT] = {"Bfgs", "ConjugateGradient", "Powell", "DownhillSimplex", "SimpleMulti", "SimpleNewtonMulti",
-                               "Meta[SimpleNewton|Simple]", "Meta[Bfgs|Powell]", "Meta[ConjugateGradient|DownhillSimplex]",
+                               "Meta[SimpleNewton|Simple]", "Meta[Bfgs|Powell]", "Meta[ConjugateGradient|DownhillSimplex]", "Meta[Powell|DownhillSimplex:step]",
                                "Brent", "BrentInward", "GoldenSection", "NewtonOneDimension", "NewtonBacktrack"};
 static bool oneDim(int o) { return o >= BRENT; }
 static const char* CONS[6] = {"none", "box", "face", "start-on-lower-bounds", "start-on-upper-bounds", "start-on-alternating-bounds"};
@@ -157,13 +157,14 @@ static std::shared_ptr<AbstractOptimizer> makeOpt(int kind, std::shared_ptr<Obj>
     case DSM: return std::make_shared<DownhillSimplexMethod>(f);
     case SIMPLE: return std::make_shared<SimpleMultiDimensions>(f);
     case SNEWTON: return std::make_shared<SimpleNewtonMultiDimensions>(f);
-    case META0: case META1: case META2: {
+    case META0: case META1: case META2: case META3: {
       auto* desc = new MetaOptimizerInfos();
       std::vector<std::string> a, b; int na = (n + 1) / 2;
       for (int i = 0; i < n; ++i) (i < na ? a : b).push_back(Obj::pname(i));
       if (kind == META0) { desc->addOptimizer("A", std::make_shared<SimpleNewtonMultiDimensions>(f), a, 2, MetaOptimizerInfos::IT_TYPE_STEP); desc->addOptimizer("B", std::make_shared<SimpleMultiDimensions>(f), b, 0, MetaOptimizerInfos::IT_TYPE_STEP); }
       if (kind == META1) { desc->addOptimizer("A", std::make_shared<BfgsMultiDimensions>(f), a, 1, MetaOptimizerInfos::IT_TYPE_FULL); desc->addOptimizer("B", std::make_shared<PowellMultiDimensions>(f), b, 0, MetaOptimizerInfos::IT_TYPE_FULL); }
       if (kind == META2) { desc->addOptimizer("A", std::make_shared<ConjugateGradientMultiDimensions>(f), a, 1, MetaOptimizerInfos::IT_TYPE_STEP); desc->addOptimizer("B", std::make_shared<DownhillSimplexMethod>(f), b, 0, MetaOptimizerInfos::IT_TYPE_FULL); }
+      if (kind == META3) { desc->addOptimizer("A", std::make_shared<PowellMultiDimensions>(f), a, 0, MetaOptimizerInfos::IT_TYPE_FULL); desc->addOptimizer("B", std::make_shared<DownhillSimplexMethod>(f), b, 0, MetaOptimizerInfos::IT_TYPE_STEP); }   // a step-wise simplex comes last: the round ends on one of its steps
       return std::make_shared<MetaOptimizer>(f, std::unique_ptr<MetaOptimizerInfos>(desc));
     }
     case BRENT: case BRENT_IN: return std::make_shared<BrentOneDimension>(f);
@@ -350,17 +351,22 @@ static Conv convBound(const Cfg& cf, const Run& r) {
       if (cf.var != 0 || !diagQ) { cv.why = "not a Newton direction"; return cv; }
       // two roundings (m - start, start + 1 * dir), each <= u times a magnitude <= |start|+|m|
       double mag = 0; for (int i = 0; i < n; ++i) mag = std::max(mag, std::fabs(cf.start[(size_t)i]) + std::fabs(s.m[(size_t)i]));
-      cv.judged = true; cv.bound = 4 * UR * mag * std::sqrt((double)n); cv.why = "exact Newton step"; return cv;
+      // ... unless the search refuses to move at all: it gives up when the step, relative to max(|x_i|,1), is below its 1e-4 resolution
+      // (alamin = 1e-4/test > 1 at the first trial); the start is then closer than that to the minimiser in every coordinate
+      double refuse = 0; for (int i = 0; i < n; ++i) refuse = std::max(refuse, std::max(1.0, std::fabs(cf.start[(size_t)i])));
+      refuse *= 1e-4 * std::sqrt((double)n);
+      cv.judged = true; cv.bound = std::max(4 * UR * mag * std::sqrt((double)n), r.obj->nEval == 0 ? refuse : 0.0); cv.why = r.obj->nEval == 0 ? "step below the 1e-4 resolution of the search: no move" : "exact Newton step"; return cv;
     }
     default: cv.why = "meta-optimiser: no bound derived"; return cv;
   }
 }
 
 // ================================================================================================ the judged case
+static void setBox(Cfg& cf);
 static void judge(const Cfg& cf, vf::Case& c, bool sampleIt, bool twice) {
   Run r; r.trace = c.verbose; doRun(cf, r, c);
   if (c.verbose) { c.note(cf.describe()); for (size_t k = 0; k < r.hist.size(); ++k) c.note("step " + str(k + 1) + ": counter=" + str(r.counts[k]) + " x=" + vf::vstr(r.hist[k].x) + " f=" + num(r.hist[k].f) + (r.hist[k].dirs.empty() ? "" : " dirs=" + vf::vstr(r.hist[k].dirs))); c.note("true evaluations: " + str(r.obj->nEval) + (r.returned ? " returned " + num(r.ret) : " raised " + r.exc + ": " + r.excWhat)); }
-  std::string on = (cf.opt == META0 || cf.opt == META1 || cf.opt == META2) ? "MetaOptimizer" : ON[cf.opt];   // signature class: the optimiser class (the three meta configurations are one class)
+  std::string on = (cf.opt == META0 || cf.opt == META1 || cf.opt == META2 || cf.opt == META3) ? "MetaOptimizer" : ON[cf.opt];   // signature class: the optimiser class (the three meta configurations are one class)
   std::string cls = on;
   std::string in = cf.describe();
   const Spec& s = cf.spec; int n = s.n; int np = r.obj->np;
@@ -432,6 +438,13 @@ static void judge(const Cfg& cf, vf::Case& c, bool sampleIt, bool twice) {
       // below the tolerance) does not hold for the simplex as it is when the run stops -> the test used stale vertex indices (a different defect)
       if (!(d <= cv.bound) && cf.opt == DSM && !(2 * std::fabs(r.ymax - r.ymin) / (std::fabs(r.ymax) + std::fabs(r.ymin)) < cf.tol))
         c.fail("conv|stop-rule-not-satisfied-by-final-simplex|" + cls, in + ": |x-m|=" + num(d) + " > bound " + num(cv.bound) + "; vertex values range [" + num(r.ymin) + "," + num(r.ymax) + "] but the test compared " + num(r.ylo) + " with " + num(r.yhi) + "; reported " + vf::vstr(xr) + " minimiser " + vf::vstr(s.m) + " steps=" + str(r.steps));
+      else if (!(d <= cv.bound) && cf.cons == 1 && [&] {
+                 // which site? A box that no evaluation came near cannot explain a failure: if the same configuration without the box meets
+                 // its bound, the constraint handling itself changed an unconstrained run (a different defect from a stop rule that fires early)
+                 Cfg cu = cf; cu.cons = 0; setBox(cu); Run ru; vf::Out ou; vf::Case c2 = c; c2.out = &ou; c2.muted = true; c2.verbose = false; doRun(cu, ru, c2);
+                 if (!ru.returned || !ru.tolReached) return false;
+                 Conv cvu = convBound(cu, ru); return cvu.judged && dist(ru.xrep, s.m) <= cvu.bound; }())
+        c.fail("conv|box-never-touched-yet-the-run-misses-the-minimiser-that-the-unconstrained-run-reaches|" + cls, in + ": |x-m|=" + num(d) + " > bound " + num(cv.bound) + " [" + cv.why + "]; reported " + vf::vstr(xr) + " minimiser " + vf::vstr(s.m) + " steps=" + str(r.steps) + " evaluations=" + str(r.obj->nEval));
       else if (!(d <= cv.bound))
         c.fail("conv|stopped-far-from-minimiser|" + cls, in + ": |x-m|=" + num(d) + " > bound " + num(cv.bound) + " [" + cv.why + "]; reported " + vf::vstr(xr) + " minimiser " + vf::vstr(s.m) + " kappa=" + num(s.lmax / s.lmin) + " steps=" + str(r.steps) + " evaluations=" + str(r.obj->nEval));
     }
@@ -465,6 +478,8 @@ static void addSlice(vf::Runner& R, const Slice& sl) {
     std::vector<int> d = vf::digits(idx, {(int)S->vars.size(), (int)S->buds.size(), (int)S->tols.size(), (int)S->pols.size(), (int)S->cons.size(), (int)S->starts.size(), (int)S->objs.size()});
     Cfg cf; cf.opt = S->opt; cf.var = S->vars[(size_t)d[0]]; cf.bud = S->buds[(size_t)d[1]]; cf.tol = TOLS[S->tols[(size_t)d[2]]]; cf.pol = S->pols[(size_t)d[3]]; cf.cons = S->cons[(size_t)d[4]];
     cf.start = S->starts[(size_t)d[5]]; cf.spec = S->objs[(size_t)d[6]];
+    // marker start (NaN): a start next to the minimiser, m + 1e-5 in every coordinate (the line searches then work at the limit of their step rules)
+    if (cf.start[0] != cf.start[0]) for (size_t i = 0; i < cf.start.size(); ++i) cf.start[i] = cf.spec.m[i] + 1e-5;
     setBox(cf);
     judge(cf, c, idx % 977 == 5, idx % 8 == 0);
   }, 20.0);
@@ -529,11 +544,12 @@ int main(int argc, char** argv) {
     for (int n = 1; n <= maxN; ++n) {
       if (oneDim(opt) && opt != NBOD && n > 1) continue;
       if (opt == NBOD && n > 3) continue;
-      if ((opt == META1 || opt == META2) && n < 2) continue;
+      if ((opt == META1 || opt == META2 || opt == META3) && n < 2) continue;
       std::vector<int> vars = {0};
       if (opt == BRENT || opt == BRENT_IN || opt == GOLDEN || opt == NBOD) vars = {0, 1};
       std::vector<std::vector<double>> starts = lattice(n, SV, capS);
       if (n == 1) starts.push_back(std::vector<double>(1, -0.1));   // tie case: the first simplex (-0.1, 0.1) / interval straddles the minimiser 0 symmetrically
+      starts.push_back(std::vector<double>((size_t)n, NaN));        // marker: start = minimiser + 1e-5 in every coordinate
       std::string base = std::string("run:") + ON[opt] + ":n" + str(n) + ":";
       {  // slice 1: every objective x every tolerance, unconstrained, large budget
         Slice s; s.opt = opt; s.n = n; s.objs = objectives(n, 2, cap); s.starts = starts; s.cons = {0}; s.pols = {0}; s.tols = {0, 1, 2, 3}; s.buds = {BIG}; s.vars = vars;
